@@ -150,13 +150,10 @@ void tmcg_mpz_spowm
 	}
 	mpz_mul(res, res, xx); /* res = res * foo * foo^{-1} mod p */
 	mpz_mod(res, res, p);
+	if (!mpz_invert(xx, bar, p))
+		mpz_set_ui(xx, 1UL), mpz_set_ui(bar, 1UL); /* dummy not invertible */
 	mpz_mul(res, res, bar);
 	mpz_mod(res, res, p);
-	if (!mpz_invert(xx, bar, p))
-	{
-		mpz_clear(foo), mpz_clear(bar), mpz_clear(baz), mpz_clear(xx);
-		throw std::runtime_error("tmcg_mpz_spowm: mpz_invert failed");
-	}
 	mpz_mul(res, res, xx); /* res = res * bar * bar^{-1} mod p */
 	mpz_mod(res, res, p);
 	mpz_mul(res, res, baz);
